@@ -82,7 +82,7 @@ PROPS = {
                 "punctuation, separators, quotes, control bytes, invalid UTF-8) so near-misses are dense, double edits and random strings; numeric and "
                 "slice inputs for in/int/ints/float/unique; separator triples over punctuation incl. the empty separator; regexes with escaped quotes, "
                 "alternation and commas; options protected by quotes; through valid.Var and a struct field; every instance carries a unique marker; "
-                "plus valid.GetTimeFmt for all 64 masks x 0..3 separators. The independent verdict is computed inside Coq (Spec/FormatSpec.v) or, for the "
+                "plus valid.GetTimeFmt for all 64 masks x 0..3 separators (and, since it is re-derived from its source text, for every list of separators by C05_timefmt_from_source). The independent verdict is computed inside Coq (Spec/FormatSpec.v) or, for the "
                 "oracle-backed rules, by the harness's own direct standard-library call. distinct cell = (rule, Go type of the value, verdict, a "
                 "rule-specific shape feature).",
         "trusted": ["translator: the regular expressions of valid/init.go as regexp/syntax trees, rule table", 
